@@ -50,6 +50,11 @@ func open(ctx context.Context, ds datastore.Datastore) (*Store, error) {
 	if err != nil {
 		return nil, fmt.Errorf("continuing deletion: %w", err)
 	}
+	// DeleteAll writes its tombstone through the namespaced datastore: resume an
+	// interrupted wipe there as well.
+	if err := maybeContinueDelete(ctx, cs.ds); err != nil {
+		return nil, fmt.Errorf("continuing deletion: %w", err)
+	}
 
 	latestInstance, err := cs.readInstanceNumber(ctx, certStoreLatestKey)
 	if errors.Is(err, datastore.ErrNotFound) {
